@@ -152,14 +152,22 @@ def drive_volume(rec, quick):
                 ok += 1
 
             # coefficient arithmetic
-            for op in ("copy", "negate", "add", "sub", "rotate", "automorphism"):
+            A_al = Buf(8 * n * limbs, off=0, fill=0x11)          # the same first operand, on a 64-byte boundary
+            A_al.u8[:] = A.u8
+            A_any = A
+            for op, roff, aligned_a in [(o, r, al) for o in ("copy", "negate", "add", "sub", "rotate", "automorphism")
+                                        for (r, al) in ((rng.choice([8, 16, 24, 40]), True), (rng.choice([0, 32]), False), (rng.choice(offs), None))]:
                 label = "vec_znx_" + op
-                if not rec.progress("%s[%s] N=%d limbs=%d (volume)" % (label, mk, n, limbs)):
+                if not rec.progress("%s[%s] N=%d limbs=%d (volume, result at +%d, first operand %s)" % (
+                        label, mk, n, limbs, roff, "aligned" if aligned_a else "as allocated")):
                     continue
-                R = Buf(8 * n * limbs, off=rng.choice(offs), fill=0x6B)
+                A = A_al if aligned_a else A_any
+                if aligned_a is False and A_any.addr % 32 == 0:
+                    continue
+                R = Buf(8 * n * limbs, off=roff, fill=0x6B)
                 p = rng.choice([1, 3, n + 1, -5]) | (1 if op == "automorphism" else 0)
                 vecops.call_op(L, mod, op, p, R, limbs, n, A, limbs, n, B, limbs, n)
-                rec.case(("volume", op, mk, n))
+                rec.case(("volume", op, mk, n, aligned_a))
 
                 def one(i, op=op, p=p):
                     r1, a1, b1 = Buf(8 * n, fill=0x6B), Buf(8 * n), Buf(8 * n)
@@ -168,6 +176,7 @@ def drive_volume(rec, quick):
                     vecops.call_op(L, mod, op, p, r1, 1, n, a1, 1, n, b1, 1, n)
                     return r1.u8.copy()
                 check(label, R, 8 * n, one)
+            A = A_any
             # DFT, scalar product, inverse DFT (both forms)
             nb = L.call("bytes_of_vec_znx_dft", mod, 1)
             D = Buf(nb * limbs, off=rng.choice(offs), fill=0x33)
